@@ -81,6 +81,18 @@ contract("src/common.py:get_intron_strand", {"intron": IV, "reference_region": "
          note="string slicing/upper() on a pyfaidx record: outside the subset; decided by the finite-domain check "
               "C18.intron_strand_table over all site dinucleotides instead")
 
+@spec("dict[tuple[int,int],str], list[tuple[int,int]], int, str -> int")
+def votes(sd, introns, n, s):
+    # how many of the first n introns carry the strand s in the memo
+    return 0 if n <= 0 else votes(sd, introns, n - 1, s) + (1 if sd[introns[n - 1]] == s else 0)
+
+
+lemma("votes_frame", {"sd1": "dict[tuple[int,int],str]", "sd2": "dict[tuple[int,int],str]", "introns": IVS, "n": "int", "s": "str"}, props=["C18"],
+      # a memo that only grew (old entries kept) gives the same votes on introns it already knew
+      requires=["0 <= n <= len(introns)", "all(introns[j] in sd1 and introns[j] in sd2 and sd2[introns[j]] == sd1[introns[j]] for j in range(n))"],
+      ensures=["votes(sd2, introns, n, s) == votes(sd1, introns, n, s)"], induct="n", base="0")
+
+
 contract("src/gene_info.py:StrandDetector.count_canonical_sites", {"self": "rec:StrandDetector", "introns": IVS},
          returns="tuple[int,int]", props=["C18"], modifies=["self.strand_dict"],
          ensures=["all(k in self.strand_dict and self.strand_dict[k] == old(self.strand_dict)[k] for k in old(self.strand_dict))",
@@ -90,8 +102,12 @@ contract("src/gene_info.py:StrandDetector.count_canonical_sites", {"self": "rec:
                   "(result[1] > 0) == any(self.strand_dict[introns[j]] == '-' for j in range(len(introns)))",
                   # unanimous evidence is counted in full
                   "not all(self.strand_dict[introns[j]] == '+' for j in range(len(introns))) or result == (len(introns), 0)",
-                  "not all(self.strand_dict[introns[j]] == '-' for j in range(len(introns))) or result == (0, len(introns))"],
+                  "not all(self.strand_dict[introns[j]] == '-' for j in range(len(introns))) or result == (0, len(introns))",
+                  # the two counts are exactly the numbers of '+' and '-' introns (in the memo as it stands after the call)
+                  "result[0] == votes(self.strand_dict, introns, len(introns), '+')",
+                  "result[1] == votes(self.strand_dict, introns, len(introns), '-')"],
          loops={0: {"inv": [
+             "count_fwd == votes(self.strand_dict, introns, _k0, '+')", "count_rev == votes(self.strand_dict, introns, _k0, '-')",
              "all(k in self.strand_dict and self.strand_dict[k] == old(self.strand_dict)[k] for k in old(self.strand_dict))",
              "all(introns[j] in self.strand_dict for j in range(_k0))",
              "count_fwd >= 0 and count_rev >= 0 and count_fwd + count_rev <= _k0",
@@ -99,7 +115,9 @@ contract("src/gene_info.py:StrandDetector.count_canonical_sites", {"self": "rec:
              "(count_rev > 0) == any(self.strand_dict[introns[j]] == '-' for j in range(_k0))",
              "not all(self.strand_dict[introns[j]] == '+' for j in range(_k0)) or (count_fwd == _k0 and count_rev == 0)",
              "not all(self.strand_dict[introns[j]] == '-' for j in range(_k0)) or (count_rev == _k0 and count_fwd == 0)"],
-             "locals": {"strand": "str"}}},
+             "locals": {"strand": "str"},
+             "hints": ["votes_frame(_at_head_self.strand_dict, self.strand_dict, introns, _k0 - 1, '+')",
+                       "votes_frame(_at_head_self.strand_dict, self.strand_dict, introns, _k0 - 1, '-')"]}},
          native=False)
 
 contract("src/gene_info.py:StrandDetector.get_clean_strand", {"self": "rec:StrandDetector", "introns": IVS},
@@ -124,7 +142,12 @@ contract("src/gene_info.py:StrandDetector.get_strand",
                   "result != '-' or any(self.strand_dict[introns[j]] == '-' for j in range(len(introns))) or (has_polyt and not has_polya)",
                   # ... and when the splice sites are uninformative the polyA/polyT evidence decides
                   "any(self.strand_dict[introns[j]] == '+' or self.strand_dict[introns[j]] == '-' for j in range(len(introns))) "
-                  "or result == ('+' if has_polya and not has_polyt else '-' if has_polyt and not has_polya else '.')"],
+                  "or result == ('+' if has_polya and not has_polyt else '-' if has_polyt and not has_polya else '.')",
+                  # agrees with the splice sites: the majority decides; a tie (including no canonical site at all) is uninformative and
+                  # leaves the decision to the polyA / polyT evidence, '.' without it
+                  "result == ('+' if votes(self.strand_dict, introns, len(introns), '+') > votes(self.strand_dict, introns, len(introns), '-') else "
+                  "'-' if votes(self.strand_dict, introns, len(introns), '-') > votes(self.strand_dict, introns, len(introns), '+') else "
+                  "('+' if has_polya and not has_polyt else '-' if has_polyt and not has_polya else '.'))"],
          native=False)
 
 
@@ -164,6 +187,39 @@ def c18_table(tier, rng):
                              "observed": got, "required": want})
     return {"obligations": obl, "discharged": dis, "violations": viol, "cases": obl, "exhaustive": True,
             "bound": "all 81x81 site dinucleotide pairs", "samples": [{"left": "GT", "right": "AG", "strand": "+"}]}
+
+
+@finite("C18.strand_vote", ["C18", "C04"], note="the real StrandDetector.get_strand / get_clean_strand on every assignment of '+', '-', '.' "
+        "to <= 5 introns (memo preset through set_strand) x the four polyA/polyT flag pairs: majority of the canonical sites decides, a tie "
+        "(or no canonical site) leaves the decision to the tails and gives '.' without them; get_clean_strand needs unanimity")
+def c18_vote(tier, rng):
+    import itertools
+    gi = native.repo_import("src/gene_info.py")
+    obl = dis = 0
+    viol = []
+    for n in range(0, 6):
+        introns = [(100 * k + 10, 100 * k + 60) for k in range(n)]
+        for strands in itertools.product("+-.", repeat=n):
+            for pa in (False, True):
+                for pt in (False, True):
+                    obl += 1
+                    d = gi.StrandDetector(None)
+                    for i, s_ in zip(introns, strands):
+                        d.set_strand(i, s_)
+                    got = d.get_strand(list(introns), pa, pt)
+                    clean = d.get_clean_strand(list(introns))
+                    f, r = strands.count("+"), strands.count("-")
+                    want = "+" if f > r else "-" if r > f else ("+" if pa and not pt else "-" if pt and not pa else ".")
+                    want_clean = "+" if f > 0 and r == 0 else "-" if r > 0 and f == 0 else "."
+                    if got == want and clean == want_clean:
+                        dis += 1
+                    elif len(viol) < 3:
+                        viol.append({"obligation": "C18.strand_vote.%s.%s%s" % ("".join(strands).replace("+", "p").replace("-", "m").replace(".", "n") or "none",
+                                                                                   "A" if pa else "", "T" if pt else ""),
+                                     "inputs": {"intron_strands": list(strands), "has_polya": pa, "has_polyt": pt},
+                                     "observed": {"get_strand": got, "get_clean_strand": clean}, "required": {"get_strand": want, "get_clean_strand": want_clean}})
+    return {"obligations": obl, "discharged": dis, "violations": viol, "cases": obl, "exhaustive": True,
+            "bound": "all strand assignments of <= 5 introns x 4 tail flag pairs", "samples": [{"intron_strands": ["+", "-"], "has_polya": True, "want": "+"}]}
 
 
 def _isolation_case(seed):
